@@ -225,7 +225,7 @@ func (e *Engine) inline(st *State, call *ast.CallExpr, fn *Func, callee *types.F
 		for _, s := range states {
 			e.KillVar(s, po)
 			if b.stable {
-				e.transfer(s, e.Fn.Render(b.a), e.Fn.Render(b.p), b.p)
+				e.transfer(s, e.Fn.Render(b.a), e.Fn.Render(b.p), nil, b.p)
 				next = append(next, s)
 			} else {
 				next = append(next, e.assignOne(s, b.p, ast.Unparen(b.a), exit)...)
@@ -264,7 +264,7 @@ func (e *Engine) inline(st *State, call *ast.CallExpr, fn *Func, callee *types.F
 		s3 := s2.clone(e.Fn.Pos(call.Pos()) + " leave " + callee.Name())
 		for _, b := range binds {
 			if b.stable && b.back {
-				e.transfer(s3, e.Fn.Render(b.p), e.Fn.Render(b.a), b.a)
+				e.transfer(s3, e.Fn.Render(b.p), e.Fn.Render(b.a), e.Fn.objOf(b.p), b.a)
 			}
 		}
 		o := inlExit{st: s3, ret: ret}
@@ -284,7 +284,7 @@ func (e *Engine) inline(st *State, call *ast.CallExpr, fn *Func, callee *types.F
 }
 
 // transfer copies every fact whose key mentions the token `from` to the key with `to` in its place.
-func (e *Engine) transfer(st *State, from, to string, extra ...ast.Expr) {
+func (e *Engine) transfer(st *State, from, to string, strip types.Object, extra ...ast.Expr) {
 	if from == to || from == "" {
 		return
 	}
@@ -305,7 +305,9 @@ func (e *Engine) transfer(st *State, from, to string, extra ...ast.Expr) {
 		d := &factDeps{vars: map[types.Object]bool{}}
 		if od := e.deps[k]; od != nil {
 			for o := range od.vars {
-				d.vars[o] = true
+				if o != strip {
+					d.vars[o] = true
+				}
 			}
 			d.heap = od.heap
 		} else {
@@ -314,12 +316,9 @@ func (e *Engine) transfer(st *State, from, to string, extra ...ast.Expr) {
 		for _, x := range extra {
 			e.collectDeps(d, x)
 		}
-		if cur := e.deps[nk]; cur != nil {
-			for o := range d.vars {
-				cur.vars[o] = true
-			}
-			cur.heap = cur.heap || d.heap
-		} else {
+		// the dependencies of a key are shared by all states: a key that exists keeps its own (merging the
+		// parameter in would make the next entry of the helper kill the caller's fact)
+		if e.deps[nk] == nil {
 			e.deps[nk] = d
 		}
 		add = append(add, kv{nk, v})
